@@ -34,6 +34,32 @@ func runC10(c *Ctx) {
 	c10R1(c)
 	c10R2(c)
 	c10R3(c)
+	c10R4(c)
+}
+
+// R4: effects of operations that had returned are on disk: Tag / Push(manifest) / Untag
+// return nil (AutoSaveIndex on) only after a successful save of index.json — evaluated
+// from function entry, not from a change of the in-memory map (shared with C08.R2).
+func c10R4(c *Ctx) {
+	const R4 = "C10.R4.returned-effects-persisted"
+	c.Expect(R4, 4)
+	r := c08FindRoles(c, R4)
+	if r == nil {
+		return
+	}
+	promises, lost := c08PersistPromises(c.P, r)
+	for _, l := range lost {
+		c.LostAnchor(R4, l)
+	}
+	for _, pr := range promises {
+		key := FnName(pr.Fn) + "|" + pr.What
+		if pr.Bad == nil {
+			c.OK(R4, key, pr.Fn.Pos(), "every nil-error return passes a successful saveIndex (or the AutoSaveIndex==false edge) from function entry")
+		} else {
+			c.Violation(R4, key, pr.Bad.Pos(), "the operation can return success at "+c.P.Pos(pr.Bad.Pos())+" without index.json having been written although AutoSaveIndex is on: "+
+				"if the in-memory tag map was ahead of the file (earlier failed index write, or tagging while AutoSaveIndex was off) a crash after this return loses a tag change the caller was told is stored")
+		}
+	}
 }
 
 // ---------------------------------------------------------------- R1
@@ -562,6 +588,15 @@ var c10Mutants = []Mutant{
 		Old:    "\t\terr := s.saveIndex()\n\t\tif err != nil {\n\t\t\treturn nil, err\n\t\t}\n",
 		New:    "\t\t_ = s.saveIndex()\n",
 		Expect: "C10.R3.ordering|(*~/content/oci.Store).delete|index-saved-before-blob-removal"},
+	// R4
+	{Name: "digest-retag-skips-index-write", File: "content/oci/oci.go",
+		Old:    "\tdgst := desc.Digest.String()\n\tif reference != dgst {\n\t\t// also tag desc by its digest",
+		New:    "\tdgst := desc.Digest.String()\n\tif reference == dgst {\n\t\tif _, err := s.tagResolver.Resolve(ctx, dgst); err == nil {\n\t\t\treturn nil\n\t\t}\n\t}\n\tif reference != dgst {\n\t\t// also tag desc by its digest",
+		Expect: "C10.R4.returned-effects-persisted|(*~/content/oci.Store).tag|success-implies-index-saved"},
+	{Name: "untag-skips-write-for-unannotated", File: "content/oci/oci.go",
+		Old:    "\ts.tagResolver.Untag(reference)\n\tif s.AutoSaveIndex {\n\t\treturn s.saveIndex()\n\t}\n\treturn nil\n",
+		New:    "\ts.tagResolver.Untag(reference)\n\tif s.AutoSaveIndex && s.index != nil && len(s.index.Manifests) > 0 {\n\t\treturn s.saveIndex()\n\t}\n\treturn nil\n",
+		Expect: "C10.R4.returned-effects-persisted|(*~/content/oci.Store).Untag|success-implies-index-saved"},
 	// applies once D4 is repaired: the save is moved behind the sweep
 	{Name: "gc-saves-after-sweep", File: "content/oci/oci.go",
 		Old:    "\tif s.AutoSaveIndex {\n\t\tif err := s.saveIndex(); err != nil {\n\t\t\treturn err\n\t\t}\n\t}\n\treachableNodes := s.graph.DigestSet()\n",
